@@ -109,6 +109,27 @@ pub fn d_f64(_t: bool) -> Vec<f64> {
 pub fn d_bool(_t: bool) -> Vec<bool> {
     vec![false, true]
 }
+/// Long arguments: lengths around the sizes at which an implementation might switch to a shortened or digested
+/// key (64, 128, 192, 256 ...). `long(n, 0)` is the base string of length n, variant 1 differs in the last
+/// character only, variant 2 in the first only, variant 3 is one character longer.
+pub fn long(n: usize, variant: u8) -> String {
+    let mut s: String = (0..n).map(|i| char::from(b'a' + (i % 23) as u8)).collect();
+    match variant {
+        1 => {
+            s.pop();
+            s.push('#');
+        }
+        2 => {
+            s.remove(0);
+            s.insert(0, '#');
+        }
+        3 => s.push('x'),
+        _ => {}
+    }
+    s
+}
+const LONG_LENGTHS: [usize; 3] = [70, 200, 300];
+
 const ALPHA: [char; 8] = ['a', '|', '"', '\\', '\'', ' ', ',', '\n'];
 pub fn d_char(_t: bool) -> Vec<char> {
     let mut v = ALPHA.to_vec();
@@ -137,6 +158,11 @@ pub fn d_string(thorough: bool) -> Vec<String> {
             out.push(extra.into());
         }
     }
+    for n in LONG_LENGTHS {
+        for v in 0..4 {
+            out.push(long(n, v));
+        }
+    }
     out
 }
 pub fn d_opt_u8(_t: bool) -> Vec<Option<u8>> {
@@ -147,21 +173,34 @@ pub fn d_opt_string(_t: bool) -> Vec<Option<String>> {
     for s in ["", "a", "|", "None", "Some(\"a\")", "\"", "a\")", "\\"] {
         v.push(Some(s.to_string()));
     }
+    v.push(Some(long(200, 0)));
+    v.push(Some(long(200, 1)));
     v
 }
 pub fn d_vec_u8(_t: bool) -> Vec<Vec<u8>> {
-    vec![vec![], vec![1], vec![1, 2], vec![12], vec![1, 2, 3], vec![12, 3], vec![1, 23], vec![2], vec![0]]
+    let mut v = vec![vec![], vec![1], vec![1, 2], vec![12], vec![1, 2, 3], vec![12, 3], vec![1, 23], vec![2], vec![0]];
+    for n in [70usize, 300] {
+        let base = vec![7u8; n];
+        let mut last = base.clone();
+        last[n - 1] = 8;
+        let mut first = base.clone();
+        first[0] = 8;
+        v.push(base);
+        v.push(last);
+        v.push(first);
+    }
+    v
 }
 pub fn d_vec_string(_t: bool) -> Vec<Vec<String>> {
     let s = |x: &str| x.to_string();
-    vec![vec![], vec![s("")], vec![s("a")], vec![s("a"), s("b")], vec![s("a, b")], vec![s("a\", \"b")], vec![s("a|b")], vec![s("a"), s("|b")], vec![s(""), s("")]]
+    vec![vec![], vec![s("")], vec![s("a")], vec![s("a"), s("b")], vec![s("a, b")], vec![s("a\", \"b")], vec![s("a|b")], vec![s("a"), s("|b")], vec![s(""), s("")], vec![long(200, 0), s("a")], vec![long(200, 0), s("b")], vec![long(200, 3)]]
 }
 pub fn d_pair(_t: bool) -> Vec<(u8, u8)> {
     vec![(0, 0), (1, 2), (12, 3), (1, 23), (2, 1), (1, 1)]
 }
 pub fn d_spair(_t: bool) -> Vec<(String, u8)> {
     let s = |x: &str| x.to_string();
-    vec![(s(""), 0), (s("a"), 1), (s("a\", 1"), 1), (s("|"), 2), (s("a"), 12), (s("a1"), 2)]
+    vec![(s(""), 0), (s("a"), 1), (s("a\", 1"), 1), (s("|"), 2), (s("a"), 12), (s("a1"), 2), (long(200, 0), 1), (long(200, 0), 2), (long(200, 1), 1)]
 }
 pub fn d_nested(_t: bool) -> Vec<(u8, (u8, u8))> {
     vec![(0, (0, 0)), (1, (2, 3)), (12, (3, 1)), (1, (23, 1)), (1, (2, 31))]
@@ -185,7 +224,7 @@ pub fn d_w(_t: bool) -> Vec<W> {
 }
 pub fn d_r(_t: bool) -> Vec<R> {
     let s = |x: &str| x.to_string();
-    vec![R { id: 0, name: s("") }, R { id: 1, name: s("r") }, R { id: 2, name: s("r") }, R { id: 1, name: s("r|1") }, R { id: 12, name: s("|") }, R { id: 1, name: s("2") }]
+    vec![R { id: 0, name: s("") }, R { id: 1, name: s("r") }, R { id: 2, name: s("r") }, R { id: 1, name: s("r|1") }, R { id: 12, name: s("|") }, R { id: 1, name: s("2") }, R { id: 1, name: long(200, 0) }, R { id: 1, name: long(200, 1) }]
 }
 
 pub fn d_i8(_t: bool) -> Vec<i8> {
@@ -247,5 +286,8 @@ pub fn d_cb(_t: bool) -> Vec<(char, bool)> {
     vec![('a', true), ('a', false), ('|', true), ('\'', false), ('"', true), (',', false), (' ', true)]
 }
 pub fn d_single(_t: bool) -> Vec<(String,)> {
-    ["", "a", "|", "a|", "\"", "a\",", "(", ",)"].iter().map(|x| (x.to_string(),)).collect()
+    let mut v: Vec<(String,)> = ["", "a", "|", "a|", "\"", "a\",", "(", ",)"].iter().map(|x| (x.to_string(),)).collect();
+    v.push((long(200, 0),));
+    v.push((long(200, 1),));
+    v
 }
